@@ -43,6 +43,7 @@ pub struct Shim {
     pub trace_access: bool,
     pub events: Vec<Ev>,   // micro events of the current call (when `record_events`)
     pub record_events: bool,
+    pub tracked: Option<(usize, usize, usize)>, // the shared block of pipeline D: user address, size, id
 }
 
 /// micro event as recorded for the concurrency pipeline
@@ -53,6 +54,7 @@ pub struct Ev {
     pub order: &'static str,
     pub val: usize,  // previous value (rmw) / loaded value / size
     pub blk: usize,  // block id (0: not a shim block)
+    pub x: bool,     // concerns the tracked shared block (pipeline D)
 }
 
 pub static SHIM: Mutex<Option<Shim>> = Mutex::new(None);
@@ -139,30 +141,29 @@ impl Shim {
 }
 
 unsafe fn sh_alloc(l: Layout) -> *mut u8 {
-    crate::gate::gate("alloc");
     with(|s| {
         if s.request_refused(l.size()) {
-            s.ev("alloc", "fail", l.size(), 0);
+            s.ev("alloc", "fail", l.size(), 0, 0);
             return std::ptr::null_mut();
         }
         let user = unsafe { s.raw_alloc(l.size(), l.align()) };
         let id = s.lowest_free_id();
         s.blocks.insert(user, Block { user, size: l.size(), align: l.align(), live: true, id });
         s.n_alloc += 1;
-        s.ev("alloc", "", l.size(), id);
+        s.ev("alloc", "", l.size(), id, user);
         user as *mut u8
     })
 }
 
 unsafe fn sh_dealloc(p: *mut u8, l: Layout) {
-    crate::gate::gate("dealloc");
+    crate::gate::turn_alloc("dealloc", p as usize);
     with(|s| {
         let user = p as usize;
         match s.blocks.get(&user).cloned() {
             None => s.err(format!("bad-free:unknown pointer")),
             Some(b) if !b.live => {
                 s.err(format!("double-free:block#{}", b.id));
-                s.ev("dealloc", "double", b.size, b.id);
+                s.ev("dealloc", "double", b.size, b.id, b.user);
             }
             Some(b) => {
                 if b.size != l.size() || b.align != l.align() {
@@ -173,14 +174,14 @@ unsafe fn sh_dealloc(p: *mut u8, l: Layout) {
                 }
                 s.retire(user);
                 s.n_dealloc += 1;
-                s.ev("dealloc", "", b.size, b.id);
+                s.ev("dealloc", "", b.size, b.id, b.user);
             }
         }
     })
 }
 
 unsafe fn sh_realloc(p: *mut u8, l: Layout, n: usize) -> *mut u8 {
-    crate::gate::gate("realloc");
+    crate::gate::turn_alloc("realloc", p as usize);
     with(|s| {
         let user = p as usize;
         let Some(b) = s.blocks.get(&user).cloned() else {
@@ -195,7 +196,7 @@ unsafe fn sh_realloc(p: *mut u8, l: Layout, n: usize) -> *mut u8 {
             s.err(format!("bad-layout:block#{} allocated {}/{} realloc {}/{}", b.id, b.size, b.align, l.size(), l.align()));
         }
         if s.request_refused(n) {
-            s.ev("realloc", "fail", n, b.id);
+            s.ev("realloc", "fail", n, b.id, b.user);
             return std::ptr::null_mut();
         }
         if !Shim::canaries_ok(&b) {
@@ -206,7 +207,7 @@ unsafe fn sh_realloc(p: *mut u8, l: Layout, n: usize) -> *mut u8 {
         s.retire(user);
         s.blocks.insert(nu, Block { user: nu, size: n, align: l.align(), live: true, id: b.id });
         s.n_realloc += 1;
-        s.ev("realloc", "", n, b.id);
+        s.ev("realloc", "", n, b.id, b.user);
         nu as *mut u8
     })
 }
@@ -224,9 +225,10 @@ fn ord(o: std::sync::atomic::Ordering) -> &'static str {
 }
 
 impl Shim {
-    fn ev(&mut self, kind: &'static str, order: &'static str, val: usize, blk: usize) {
+    fn ev(&mut self, kind: &'static str, order: &'static str, val: usize, blk: usize, bu: usize) {
         if self.record_events {
-            self.events.push(Ev { tid: crate::gate::tid(), kind, order, val, blk });
+            let x = matches!(self.tracked, Some((u, _, _)) if u == bu && bu != 0);
+            self.events.push(Ev { tid: crate::gate::tid(), kind, order, val, blk, x });
         }
     }
     fn access(&mut self, kind: &'static str, ptr: usize, len: usize) {
@@ -244,28 +246,28 @@ impl Shim {
                 self.err(format!("shared-write:write into block#{} while its count is {rc}", b.id));
             }
         }
-        self.ev(kind, "", len, b.id);
+        self.ev(kind, "", len, b.id, b.user);
     }
 }
 
 fn on_event(e: Event) {
     match e {
-        Event::Pre(_) => crate::gate::gate("pre"),
+        Event::Pre(site, addr) => crate::gate::turn_at(site, addr),
         Event::Read { ptr, len } => with(|s| s.access("read", ptr, len)),
         Event::Write { ptr, len } => with(|s| s.access("write", ptr, len)),
         Event::FetchAdd { addr, order, prev, .. } => with(|s| {
-            let id = s.find(addr).map(|b| b.id).unwrap_or(0);
-            s.ev("rmw+", ord(order), prev, id)
+            let (id, bu) = s.find(addr).map(|b| (b.id, b.user)).unwrap_or((0, 0));
+            s.ev("rmw+", ord(order), prev, id, bu)
         }),
         Event::FetchSub { addr, order, prev, .. } => with(|s| {
-            let id = s.find(addr).map(|b| b.id).unwrap_or(0);
-            s.ev("rmw-", ord(order), prev, id)
+            let (id, bu) = s.find(addr).map(|b| (b.id, b.user)).unwrap_or((0, 0));
+            s.ev("rmw-", ord(order), prev, id, bu)
         }),
         Event::Load { addr, order, val } => with(|s| {
-            let id = s.find(addr).map(|b| b.id).unwrap_or(0);
-            s.ev("load", ord(order), val, id)
+            let (id, bu) = s.find(addr).map(|b| (b.id, b.user)).unwrap_or((0, 0));
+            s.ev("load", ord(order), val, id, bu)
         }),
-        Event::Fence { order } => with(|s| s.ev("fence", ord(order), 0, 0)),
+        Event::Fence { order } => with(|s| s.ev("fence", ord(order), 0, 0, 0)),
     }
 }
 
@@ -323,4 +325,31 @@ pub fn finish_history() -> Vec<String> {
 }
 pub fn set_record_events(on: bool) {
     with(|s| s.record_events = on)
+}
+
+
+pub fn set_tracked_block(b: Option<(usize, usize, usize)>) {
+    with(|s| s.tracked = b);
+    crate::gate::set_tracked(b.map(|(u, sz, _)| (u, sz)));
+}
+pub fn take_events() -> Vec<Ev> {
+    with(|s| std::mem::take(&mut s.events))
+}
+/// the harness's own read / write of text bytes, noted like the crate's
+pub fn note_access(kind: &'static str, ptr: usize, len: usize) {
+    with(|s| s.access(kind, ptr, len))
+}
+pub fn take_events_into(out: &mut serde_json::Value, state: &str, op: &str, blk: usize) {
+    let evs = take_events();
+    let v: Vec<serde_json::Value> = evs.iter().filter(|e| e.blk == blk || e.kind == "fence").map(|e| serde_json::json!({"k":e.kind,"o":e.order,"v":e.val})).collect();
+    out[format!("{op}/{state}")] = serde_json::json!(v);
+}
+
+/// a harness-level event (thread spawn / join) in the event log
+pub fn mark(kind: &'static str) {
+    with(|s| {
+        if s.record_events {
+            s.events.push(Ev { tid: crate::gate::tid(), kind, order: "", val: 0, blk: 0, x: true });
+        }
+    })
 }
